@@ -26,7 +26,20 @@ def main():
         for f in ("pyproject.toml", "setup.py", "README.md"):
             if os.path.exists("/repo/" + f):
                 shutil.copy("/repo/" + f, scratch + "/" + f)
-        r = subprocess.run(["patch", "-p1", "-s", "-i", os.path.abspath(patch)], cwd=scratch, capture_output=True, text=True)
+        # patches come in several header styles (a/ b/, absolute paths of scratch copies, bare mashumaro/...):
+        # normalise every file header to a/mashumaro/... b/mashumaro/... and apply with -p1 inside the scratch copy
+        import re
+        norm = []
+        for line in open(patch, errors="replace").read().splitlines(True):
+            m = re.match(r"^(---|\+\+\+) (\S*?)(mashumaro/\S+)(.*)$", line, re.S)
+            if m and not line.startswith("--- a/") and not line.startswith("+++ b/"):
+                line = f"{m.group(1)} {'a' if m.group(1) == '---' else 'b'}/{m.group(3)}{m.group(4)}"
+                if not line.endswith("\n"):
+                    line += "\n"
+            norm.append(line)
+        npatch = os.path.join(scratch, "_normalised.diff")
+        open(npatch, "w").write("".join(norm))
+        r = subprocess.run(["patch", "-p1", "-s", "-i", npatch], cwd=scratch, capture_output=True, text=True)
         if r.returncode != 0:
             print("PATCH-FAILED", patch, r.stdout[-300:], r.stderr[-300:])
             return 2
